@@ -12,6 +12,7 @@
 #include "conc.hpp"
 #include "seq.hpp"
 
+#include <algorithm>
 #include <csignal>
 #include <cstdio>
 #include <cstdlib>
@@ -155,12 +156,11 @@ static int cmd_run(int argc, char** argv)
     {
         // tell the orchestrator when a call that has its own crash class is in flight
         g_seq_call_hook = [](const char* tag) {
-            static bool on = false;
-            bool        now = tag[0] != 0;
-            if (now == on)
+            static std::string cur;
+            if (cur == tag)
                 return;
-            on = now;
-            printf("CTX %s\n", now ? tag : "-");
+            cur = tag;
+            printf("CTX %s\n", tag[0] ? tag : "-");
             fflush(stdout);
         };
         GenProfile prof = profile_for(prop, thorough);
@@ -226,14 +226,18 @@ static int cmd_run(int argc, char** argv)
                 // Systematic part: if code that should run under the container's lock ran without it
                 // (never on a tree that locks consistently), park the first client at each such
                 // execution in turn while the other runs its whole call.
-                uint64_t n = out.st.counters["probe.locked_code_running_unlocked"];
-                for (uint64_t k = 0; k < n && k < 120 && !out.v.any() && !out.must_exit; ++k)
+                uint64_t n  = out.st.counters["probe.locked_code_running_unlocked"];
+                uint64_t ns = out.st.counters["probe.basic_blocks_under_shared_hold"];
+                // ... and likewise at each basic block executed under a shared hold of the lock
+                for (uint64_t kk = 0; kk < std::min<uint64_t>(n, 120) + std::min<uint64_t>(ns, 120) && !out.v.any() && !out.must_exit; ++kk)
                 {
+                    const bool     sh = kk >= std::min<uint64_t>(n, 120);
+                    const uint64_t k  = sh ? kk - std::min<uint64_t>(n, 120) : kk;
                     js::Value p2 = plan;
                     auto      sc = *p2.get("sched");
                     auto      su = js::Value::array();
                     su.push(js::Value::integer((int64_t)k));
-                    sc.set("susp", std::move(su));
+                    sc.set(sh ? "shared" : "susp", std::move(su));
                     sc.set("mode", 0); // decision list: the forced switch at the preemption needs a non-explicit mode
                     sc.set("list", js::Value::array());
                     p2.set("sched", std::move(sc));
@@ -435,7 +439,9 @@ static std::string classify_forked(const js::Value& plan, std::string* props_out
         }
     }
     // a crash inside rr_cache's eviction is its own class: the victim was not a prior resident (C15 as well as C08)
-    const std::string crash = last_tag == "rr_evict" ? "crash.rr_evict" : "crash";
+    // ... and a crash inside a call that should have had no effect (a miss, a peek, a rejected insert,
+    // an erase of an absent key) is C19's as well
+    const std::string crash = last_tag == "rr_evict" ? "crash.rr_evict" : last_tag == "noeffect" ? "crash.noeffect" : "crash";
     if (WIFSIGNALED(status))
         return WTERMSIG(status) == SIGALRM ? "hang" : crash;
     if (WIFEXITED(status) && WEXITSTATUS(status) != 0)
